@@ -39,19 +39,11 @@ Print Assumptions C20_translation_facts.
 
 (* shape 1: class C(<bases>, Generic[T1..Tn], <bases>) - Generic[..] at any position, the other bases
    classes or aliases - instantiated as C[X1..Xn]():  exactly {Ti: Xi}, in declaration order.
-   shapes 2 and 3: class S(<extra bases>, D[X1..Xn], <further bases>) with D declaring Generic[T1..Tn]:
-   the same dict, however the instance was made (also inside __init__).
-
-   Full statement for shapes 2 and 3 (FALSE on the pinned tree, see C20_type_vars_foreign_base_refuted):
-
-     forall mx w k c ts xs oc, binding_subclass_full mx w c ts xs -> type_vars_at w k c oc = Ok (VDict (combine ts xs))
-
-   where the extra bases in front of D[xs] may also be parametrised bases that have nothing to do with the mixin
-   (List[int]; P[int] with a generic P that does not use GenericMixin).  What is proved (the _partial form; the
-   guard is spelled out in `binding_subclass`): every base in front of D[xs] is one the scan of _get_types passes
-   over - a class, or a parametrised base whose origin has __orig_bases__ none of which is Generic[..].  This is
-   the narrowest guard: a parametrised base in front that is not passed over either makes _get_types raise
-   AttributeError (origin without __orig_bases__) or is taken for the binding base (origin declares Generic). *)
+   shapes 2 and 3: class S(<extra bases>, D[X1..Xn], <further bases>) with D declaring Generic[T1..Tn] together with
+   the mixin: the same dict, however the instance was made (also inside __init__).  The extra bases in front of
+   D[..] are classes, parametrised bases that have nothing to do with the mixin (List[int]; P[int] with a generic P
+   that does not use GenericMixin - refuted before fix c1eb572, findings K-C20-builtin-alias-first /
+   K-C20-foreign-generic-first), or parametrised forwarding classes (see `binding_subclass`): the full statement. *)
 Theorem C20_type_vars_exact : forall w k c ts xs,
   (direct_generic w c ts -> forall o, type_vars_at w k c (Some (VAlias o xs)) = Ok (VDict (combine ts xs))) /\
   (binding_subclass w c ts xs -> forall oc, type_vars_at w k c oc = Ok (VDict (combine ts xs))).
@@ -60,30 +52,26 @@ Proof.
 Qed.
 Print Assumptions C20_type_vars_exact.
 
-(* known findings K-C20-builtin-alias-first and K-C20-foreign-generic-first:
+(* the witnesses of the repaired findings K-C20-builtin-alias-first and K-C20-foreign-generic-first now meet the statement:
      class D(Generic[T], GenericMixin); class P(Generic[U])            (classes 10 and 11; the mixin is class 1)
-     class S1(List[int], D[str])  ->  S1().type_vars raises AttributeError      (list: class 50, no __orig_bases__)
-     class S3(P[int], D[str])     ->  S3().type_vars == {U: int}  instead of {T: str} *)
+     class S1(List[int], D[str])  ->  {T: str}     (was: AttributeError; list: class 50, no __orig_bases__)
+     class S3(P[int], D[str])     ->  {T: str}     (was: {U: int}) *)
 Definition fb_world : world :=
   {| w_classes := [(10, {| c_own_ob := Some [VAlias VGeneric [VTok 0]; VCls 1]; c_mro := [10; 2; 1; 0] |});
                    (11, {| c_own_ob := Some [VAlias VGeneric [VTok 1]]; c_mro := [11; 2; 0] |});
                    (12, {| c_own_ob := Some [VAlias (VCls 50) [VTok 20]; VAlias (VCls 10) [VTok 21]]; c_mro := [12; 50; 10; 2; 1; 0] |});
                    (13, {| c_own_ob := Some [VAlias (VCls 11) [VTok 20]; VAlias (VCls 10) [VTok 21]]; c_mro := [13; 11; 10; 2; 1; 0] |})];
-     w_attrs := [] |}.
+     w_attrs := []; w_mixin := 1 |}.
 
-Theorem C20_type_vars_foreign_base_refuted :
-  (exists mx w c ts xs, binding_subclass_full mx w c ts xs /\
-     forall k oc, type_vars_at w k c oc = Raise AttributeErrorC) /\
-  (exists mx w c ts xs, binding_subclass_full mx w c ts xs /\ combine ts xs = [(VTok 0, VTok 21)] /\
-     forall k oc, type_vars_at w k c oc = Ok (VDict [(VTok 1, VTok 20)])).
+Example C20_example_foreign_bases :
+  binding_subclass fb_world 12 [VTok 0] [VTok 21] /\ binding_subclass fb_world 13 [VTok 0] [VTok 21] /\
+  (forall k oc, type_vars_at fb_world k 12 oc = Ok (VDict [(VTok 0, VTok 21)])) /\
+  (forall k oc, type_vars_at fb_world k 13 oc = Ok (VDict [(VTok 0, VTok 21)])).
 Proof.
-  split.
-  - exists 1, fb_world, 12, [VTok 0], [VTok 21]. split; [apply binding_subclass_full_b_sound; vm_compute; reflexivity|].
-    intros k oc. reflexivity.
-  - exists 1, fb_world, 13, [VTok 0], [VTok 21]. split; [apply binding_subclass_full_b_sound; vm_compute; reflexivity|].
-    split; [reflexivity|]. intros k oc. reflexivity.
+  assert (H12 : binding_subclass fb_world 12 [VTok 0] [VTok 21]) by (apply binding_subclass_b_sound; vm_compute; reflexivity).
+  assert (H13 : binding_subclass fb_world 13 [VTok 0] [VTok 21]) by (apply binding_subclass_b_sound; vm_compute; reflexivity).
+  split; [exact H12|]. split; [exact H13|]. split; intros k oc; [exact (tv_binding _ k _ oc _ _ H12)|exact (tv_binding _ k _ oc _ _ H13)].
 Qed.
-Print Assumptions C20_type_vars_foreign_base_refuted.
 
 (* with as many arguments as parameters the dict has the TypeVars as keys and the arguments as values, in order *)
 Theorem C20_type_vars_order : forall (ts xs : list val),
@@ -178,25 +166,23 @@ Print Assumptions C20_class_body.
 (* ---------------------------------------------------------------------------------------------------- *)
 (* get_decorated_functions                                                                                  *)
 
-(* Full statement (C20_decorated_exact), FALSE on the pinned tree - see C20_decorated_dunder_refuted and
-   C20_decorated_raising_property_refuted:
+(* Full statement (C20_decorated_exact), FALSE on the pinned tree - see C20_decorated_dunder_refuted:
 
      forall w k c oc e ms cd,
        binding_subclass w c [e] [VEnumCls ms] -> nodup_str ms = true ->
-       build_table Gen.Mixins.prog_decorator_fun cd = Ok (w_attrs w) -> in_domain cd = true -> alias_consistent cd ->
+       build_table Gen.Mixins.prog_decorator_fun cd = Ok (w_attrs w) -> claimed cd = true -> alias_consistent cd ->
        spec_decorated_ok ms cd (gdf_at w k c oc) = true.
 
-   `claimed cd` below is `in_domain cd` + `no_raising_getter cd` (lemma claimed_split).
+   class K(<extra bases>, WithDecoratedMethods[Decorators], ...) - any class layout with that shape, any enum
+   members ms, any class body cd in the claimed domain (any number of definitions; plain / async methods,
+   classmethods, staticmethods, properties - whatever their getters do, they may raise: get_decorated_functions does
+   not evaluate properties since fix 3728f44 (finding K-C20-raising-property) -, attributes, aliases; any assignment
+   of decorators and values, none or several per method).  What holds for all of them: the result is exact for the
+   definitions whose name does not start with two underscores.
    "Exactly the bound methods": a reported callable is identified by the identity of the object
    getattr(instance, name) yields (m_id; two names of one function share it); `pairs_of` / `decorated` compare these
    identities, so exactness is proved modulo that identification (the harness additionally checks on the real
-   objects that the key is a method bound to this instance / to the class / the plain function of a staticmethod).
-
-   class K(<plain bases>, WithDecoratedMethods[Decorators], ...) - any class layout with that shape, any enum
-   members ms, any class body cd in the claimed domain (any number of definitions; plain / async methods,
-   classmethods, staticmethods, properties, attributes, aliases; any assignment of decorators and values, none or
-   several per method).  What holds for all of them: the result is exact for the definitions whose name does not
-   start with two underscores. *)
+   objects that the key is a method bound to this instance / to the class / the plain function of a staticmethod). *)
 Theorem C20_decorated_exact_modulo_dunder : forall w k c oc e ms cd,
   binding_subclass w c [e] [VEnumCls ms] -> nodup_str ms = true ->
   build_table Gen.Mixins.prog_decorator_fun cd = Ok (w_attrs w) -> claimed cd = true -> alias_consistent cd ->
@@ -208,27 +194,26 @@ Proof.
   intros w k c oc e ms cd Hb Hms Ht Hc Hal.
   assert (Hw : w_attrs w = map entry_of cd).
   { destruct (C20_class_body cd Hc) as [Hbt _]. rewrite Hbt in Ht. now inversion Ht. }
-  exists (mkd ms (fun t => scan_t t (vals_of w e ms cd) [])). split; [now apply gdf_value|]. split.
+  exists (mkd ms (fun t => scan_t t (vals_of w cd) [])). split; [now apply gdf_value with e|]. split.
   { unfold mkd. rewrite map_map. reflexivity. }
-  intros t Hin. exists (scan_t t (vals_of w e ms cd) []). split; [now apply dict_get_mkd|]. split.
-  - intros kv Hkv. eapply scan_keys_obj; eauto.
-  - intros. eapply scan_iff; eauto.
+  intros t Hin. exists (scan_t t (vals_of w cd) []). split; [now apply dict_get_mkd|]. split.
+  - intros kv Hkv. eapply (scan_keys_obj w cd); eauto.
+  - intros. eapply (scan_iff w cd Hw Hc Hal); eauto.
 Qed.
 Print Assumptions C20_decorated_exact_modulo_dunder.
 
-(* the property, under the narrowest guards that exclude the known findings: K9 - no *decorated method* has a name
-   that starts with two underscores (undecorated dunder methods, dunder attributes are fine); K-C20-raising-property -
-   no property of the class raises when read *)
+(* the property, under the narrowest guard that excludes known finding K9: no *decorated method* has a name
+   that starts with two underscores (undecorated dunder methods, dunder attributes are fine) *)
 Theorem C20_decorated_exact_partial : forall w k c oc e ms cd,
   binding_subclass w c [e] [VEnumCls ms] -> nodup_str ms = true ->
-  build_table Gen.Mixins.prog_decorator_fun cd = Ok (w_attrs w) -> in_domain cd = true -> alias_consistent cd ->
-  no_decorated_dunder cd = true -> no_raising_getter cd = true ->
+  build_table Gen.Mixins.prog_decorator_fun cd = Ok (w_attrs w) -> claimed cd = true -> alias_consistent cd ->
+  no_decorated_dunder cd = true ->
   spec_decorated_ok ms cd (gdf_at w k c oc) = true /\
   exists d, gdf_at w k c oc = Ok (VDict d) /\ map fst d = map VStr ms /\
     forall t, In t ms -> exists inner, dict_get (VStr t) d = Some (VDict inner) /\
       (forall i y, In (i, y) (pairs_of inner) <-> In (i, y) (decorated cd t)).
 Proof.
-  intros w k c oc e ms cd Hb Hms Ht Hdom Hal Hnd Hnr. pose proof (claimed_split cd Hdom Hnr) as Hc.
+  intros w k c oc e ms cd Hb Hms Ht Hc Hal Hnd.
   assert (Hw : w_attrs w = map entry_of cd).
   { destruct (C20_class_body cd Hc) as [Hbt _]. rewrite Hbt in Ht. now inversion Ht. }
   split.
@@ -243,9 +228,9 @@ Print Assumptions C20_decorated_exact_partial.
 
 Lemma wdm_binding : forall w c d ms,
   lookup_ob w c = Some [VAlias (VCls d) [VEnumCls ms]] -> lookup_ob w d = Some Gen.Mixins.wdm_own_bases ->
-  binding_subclass w c [VTok 0] [VEnumCls ms].
+  uses_mixin w d = true -> binding_subclass w c [VTok 0] [VEnumCls ms].
 Proof.
-  intros w c d ms Hc Hd. exists [], d, []. repeat split; try assumption; try reflexivity.
+  intros w c d ms Hc Hd Hm. exists [], d, []. repeat split; try assumption; try reflexivity.
   exists Gen.Mixins.wdm_own_bases. split; [exact Hd|]. split; [apply C20_translation_facts|reflexivity].
 Qed.
 
@@ -256,8 +241,8 @@ Definition k9_cd : list mdef :=
        m_wrap := WPlain; m_outer := [] |} ].
 Definition k9_world : world :=
   {| w_classes := [(1, {| c_own_ob := Some [VAlias (VCls 2) [VEnumCls k9_ms]]; c_mro := [1; 2] |});
-                   (2, {| c_own_ob := Some Gen.Mixins.wdm_own_bases; c_mro := [2] |})];
-     w_attrs := map entry_of k9_cd |}.
+                   (2, {| c_own_ob := Some Gen.Mixins.wdm_own_bases; c_mro := [2; 900; 901] |})];
+     w_attrs := map entry_of k9_cd; w_mixin := 901 |}.
 
 Theorem C20_decorated_dunder_refuted : exists w c e ms cd,
   binding_subclass w c [e] [VEnumCls ms] /\ nodup_str ms = true /\
@@ -276,33 +261,26 @@ Proof.
 Qed.
 Print Assumptions C20_decorated_dunder_refuted.
 
-(* known finding K-C20-raising-property: get_decorated_functions reads every attribute of the instance;
-     class K(WithDecoratedMethods[D]):  boom = property(<raises ValueError>);  @foo(1) def m(self)
-   -> the ValueError of the getter leaves get_decorated_functions instead of {FOO: {k.m: 1}} *)
+(* the witness of the repaired finding K-C20-raising-property now meets the statement:
+     class K(WithDecoratedMethods[D]):  boom = property(<raises ValueError>);  @foo(1) def m(self)   ->  {FOO: {k.m: 1}} *)
 Definition rp_cd : list mdef :=
-  [ {| m_name := "boom"; m_id := 1; m_inner := []; m_wrap := WGetter (ARaise ValueErrorC); m_outer := [] |};
+  [ {| m_name := "boom"; m_id := 1; m_inner := []; m_wrap := WProperty (Raise ValueErrorC); m_outer := [] |};
     {| m_name := "m"; m_id := 2; m_inner := [{| d_type := "_foo"; d_val := VInt 1; d_tr := TrNone |}];
        m_wrap := WPlain; m_outer := [] |} ].
 Definition rp_world : world :=
-  {| w_classes := [(1, {| c_own_ob := Some [VAlias (VCls 2) [VEnumCls k9_ms]]; c_mro := [1; 2] |});
-                   (2, {| c_own_ob := Some Gen.Mixins.wdm_own_bases; c_mro := [2] |})];
-     w_attrs := [("boom", ARaise ValueErrorC); ("m", AVal (VObj 2 [("_foo", VInt 1)]))] |}.
+  {| w_classes := [(1, {| c_own_ob := Some [VAlias (VCls 2) [VEnumCls k9_ms]]; c_mro := [1; 2; 900; 901] |});
+                   (2, {| c_own_ob := Some Gen.Mixins.wdm_own_bases; c_mro := [2; 900; 901] |})];
+     w_attrs := map entry_of rp_cd; w_mixin := 901 |}.
 
-Theorem C20_decorated_raising_property_refuted : exists w c e ms cd,
-  binding_subclass w c [e] [VEnumCls ms] /\ nodup_str ms = true /\
-  build_table Gen.Mixins.prog_decorator_fun cd = Ok (w_attrs w) /\ in_domain cd = true /\ alias_consistent cd /\
-  no_decorated_dunder cd = true /\ decorated cd "_foo" = [(2, VInt 1)] /\
-  (forall k oc, gdf_at w k c oc = Raise ValueErrorC) /\
-  (forall k oc, spec_decorated_ok ms cd (gdf_at w k c oc) = false).
+Example C20_example_raising_property :
+  binding_subclass rp_world 1 [VTok 0] [VEnumCls k9_ms] /\
+  build_table Gen.Mixins.prog_decorator_fun rp_cd = Ok (w_attrs rp_world) /\ claimed rp_cd = true /\
+  no_decorated_dunder rp_cd = true /\ decorated rp_cd "_foo" = [(2, VInt 1)] /\
+  (forall k oc, gdf_at rp_world k 1 oc = Ok (VDict [(VStr "_foo", VDict [(VObj 2 [("_foo", VInt 1)], VInt 1)])])).
 Proof.
-  exists rp_world, 1, (VTok 0), k9_ms, rp_cd.
-  assert (Hal : alias_consistent rp_cd).
-  { intros m1 m2 [<-|[<-|[]]] [<-|[<-|[]]] M1 M2 E; try reflexivity; discriminate. }
-  assert (Hv : forall k oc, gdf_at rp_world k 1 oc = Raise ValueErrorC) by (intros; reflexivity).
-  split; [apply wdm_binding with 2; reflexivity|].
+  assert (Hb : binding_subclass rp_world 1 [VTok 0] [VEnumCls k9_ms]) by (apply wdm_binding with 2; reflexivity).
   repeat split; try reflexivity; try assumption.
 Qed.
-Print Assumptions C20_decorated_raising_property_refuted.
 
 (* unparametrised use - class K(WithDecoratedMethods): AssertionError *)
 Theorem C20_decorated_unparametrised_asserts : forall w k c ts,
@@ -318,7 +296,7 @@ Definition ex_world : world :=
   {| w_classes := [(10, {| c_own_ob := Some [VCls 5; VAlias VGeneric [VTok 0; VTok 1]; VCls 1; VCls 6]; c_mro := [10; 5; 2; 1; 6; 0] |});
                    (11, {| c_own_ob := Some [VCls 7; VAlias (VCls 10) [VTok 20; VTok 21]; VCls 8]; c_mro := [11; 7; 10; 5; 2; 1; 6; 8; 0] |});
                    (12, {| c_own_ob := None; c_mro := [12; 9; 11; 7; 10; 5; 2; 1; 6; 8; 0] |})];
-     w_attrs := [] |}.
+     w_attrs := []; w_mixin := 1 |}.
 
 Example C20_example_shapes :
   direct_generic ex_world 10 [VTok 0; VTok 1] /\
@@ -338,7 +316,7 @@ Proof.
 Qed.
 
 (* class K(WithDecoratedMethods[D]) with D = {_foo, _bar}:
-     @foo(1) @bar(2) def m1;  alias = m1;  @classmethod @bar(9) def z;  def plain;  p = property(...);  undecorated __init__ *)
+     @foo(1) @bar(2) def m1;  alias = m1;  @classmethod @bar(9) def z;  def plain;  p = property(<raises>);  x = 3;  undecorated __init__ *)
 Definition ex_ms : list string := ["_foo"; "_bar"].
 Definition ex_foo v := {| d_type := "_foo"; d_val := VInt v; d_tr := TrNone |}.
 Definition ex_bar v := {| d_type := "_bar"; d_val := VInt v; d_tr := TrKeep |}.
@@ -346,14 +324,15 @@ Definition ex_cd : list mdef :=
   [ {| m_name := "__init__"; m_id := 7; m_inner := []; m_wrap := WPlain; m_outer := [] |};
     {| m_name := "alias"; m_id := 2; m_inner := [ex_bar 2; ex_foo 1]; m_wrap := WPlain; m_outer := [] |};
     {| m_name := "m1"; m_id := 2; m_inner := [ex_bar 2; ex_foo 1]; m_wrap := WPlain; m_outer := [] |};
-    {| m_name := "p"; m_id := 3; m_inner := []; m_wrap := WGetter (AVal (VInt 3)); m_outer := [] |};
+    {| m_name := "p"; m_id := 3; m_inner := []; m_wrap := WProperty (Raise ValueErrorC); m_outer := [] |};
+    {| m_name := "x"; m_id := 8; m_inner := []; m_wrap := WGetter (AVal (VInt 3)); m_outer := [] |};
     {| m_name := "plain"; m_id := 4; m_inner := []; m_wrap := WPlain; m_outer := [] |};
-    {| m_name := "type_var"; m_id := 0; m_inner := []; m_wrap := WGetter (AVal VNone); m_outer := [] |};
+    {| m_name := "type_var"; m_id := 0; m_inner := []; m_wrap := WProperty (Ok VNone); m_outer := [] |};
     {| m_name := "z"; m_id := 6; m_inner := [ex_bar 9]; m_wrap := WClassMethod; m_outer := [] |} ].
 Definition ex_dm_world : world :=
   {| w_classes := [(1, {| c_own_ob := Some [VAlias (VCls 2) [VEnumCls ex_ms]]; c_mro := [1; 2] |});
-                   (2, {| c_own_ob := Some Gen.Mixins.wdm_own_bases; c_mro := [2] |})];
-     w_attrs := map entry_of ex_cd |}.
+                   (2, {| c_own_ob := Some Gen.Mixins.wdm_own_bases; c_mro := [2; 900; 901] |})];
+     w_attrs := map entry_of ex_cd; w_mixin := 901 |}.
 
 Example C20_example_decorated :
   binding_subclass ex_dm_world 1 [VTok 0] [VEnumCls ex_ms] /\ nodup_str ex_ms = true /\
@@ -363,7 +342,7 @@ Example C20_example_decorated :
   gdf_at ex_dm_world 4 1 None =
     Ok (VDict [(VStr "_foo", VDict [(obj_of (nth 1 ex_cd (nth 0 ex_cd (nth 0 ex_cd (nth 0 [] (Build_mdef "" 0 [] WPlain []))))), VInt 1)]);
                (VStr "_bar", VDict [(obj_of (nth 1 ex_cd (nth 0 ex_cd (nth 0 ex_cd (nth 0 [] (Build_mdef "" 0 [] WPlain []))))), VInt 2);
-                                    (obj_of (nth 6 ex_cd (nth 0 ex_cd (nth 0 ex_cd (nth 0 [] (Build_mdef "" 0 [] WPlain []))))), VInt 9)])]).
+                                    (obj_of (nth 7 ex_cd (nth 0 ex_cd (nth 0 ex_cd (nth 0 [] (Build_mdef "" 0 [] WPlain []))))), VInt 9)])]).
 Proof.
   repeat split; try (vm_compute; reflexivity).
   - apply wdm_binding with 2; reflexivity.
